@@ -250,9 +250,12 @@ def observe(case):
             "has_snap": False, "snap": [], "snap_exact": True,
         }
         if o["kind"] == "dipole":
-            v = 4.0 * np.asarray(got._inv_eps_local, dtype=np.float64).reshape(-1)
-            rv = np.rint(v)
-            r.update(has_snap=True, snap=[int(x) for x in rv], snap_exact=bool(np.all(rv == v) and v.size == np.prod(got.grid_shape)))
+            loc = got._inv_eps_local
+            if isinstance(loc, jax.Array):  # Null while the object has never been applied (then the leaves differ anyway)
+                v = 4.0 * np.asarray(loc, dtype=np.float64).reshape(-1)
+                rv = np.rint(v)
+                if v.size == int(np.prod(got.grid_shape)):
+                    r.update(has_snap=True, snap=[int(x) for x in rv], snap_exact=bool(np.all(rv == v)))
         rec_objs.append(r)
     return {"id": case["id"], "n": n, "devs": devs_placed, "objs": rec_objs}
 
